@@ -17,7 +17,7 @@ REQUIRED = ["value==exhaustive min-max", "value==threshold-search oracle", "valu
             "inf-death rows ignored with warning", "list/int forms agree", "cross-config-equal"]
 RULE = ("pairs of diagrams, sizes (0,0),(0,n),(1,1),(2,2)... up to M+N<=11 (exhaustive oracle over all partial matchings) "
         "and up to 60+60 quick / 150+150 thorough (scipy Hopcroft-Karp threshold oracle); classes: tiny integer grids "
-        "(ties, repeated and diagonal points), dyadic, floats, diagonal-heavy, all-equal, one-ulp near-ties, clusters; "
+        "(ties, repeated and diagonal points), dyadic, floats, diagonal-heavy, all-equal, one-ulp near-ties, clusters, re-paired copies (same births and deaths, different pairing); "
         "scales 1e-6..1e6; each case replayed under several hash seeds. non-trivial = both diagrams non-empty, M+N>=3 and "
         "(the optimum is strictly below the all-diagonal cost, i.e. a cross pairing is forced, or the optimum value "
         "occurs more than once among the candidate costs); distinct = digest of the input pair")
@@ -52,6 +52,10 @@ def gen_pair(rng, tier, force_small=None):
         take = rng.integers(0, m, size=n)
         B = A[take] + (rng.integers(-1, 2, size=(n, 2)) * scale * float(rng.choice([0, 1, 0.25])))
         B[:, 1] = np.maximum(B[:, 1], B[:, 0])
+    if m >= 2 and rng.random() < 0.12:        # same births and same deaths, paired differently (fast paths comparing columns)
+        B = gen.repaired(rng, A)
+        if rng.random() < 0.3 and len(B) > 2:
+            B = B[:-1]
     return A, B, scale, small
 
 
